@@ -194,6 +194,32 @@ def run(ctx):
     for k, a in enumerate(mimpl):
         if a.startswith("<"):
             fails.append((mops[k][:300], "the rule used as a filter: %s" % a[:200]))
+    # ... and a filter with more instants on one day than the whitelist holds, asked about times of day later than those
+    for txt in ("FREQ=YEARLY;BYDAY=MO,TU,WE,TH,FR,SA,SU;BYHOUR=" + ",".join(map(str, range(24))) + ";BYMINUTE=" + ",".join(map(str, range(30))),
+                "FREQ=YEARLY;BYMONTHDAY=" + ",".join(map(str, range(1, 29))) + ";BYHOUR=0,1,2,3,4,5;BYMINUTE=" + ",".join(map(str, range(60)))):
+        st1, _, _ = ctx.impl(exe, ["r.parse " + txt.encode().hex()])
+        if not st1 or not st1[0].startswith("freq="):
+            continue
+        d0 = _dt.date(rng.randint(1990, 2060), rng.randint(1, 12), rng.randint(2, 20))
+        op = "r.match %s | %s" % (st1[0], " ".join(common.hex16(x.year, x.month, x.day, 22, 15, 0, 1023) for x in (d0 + _dt.timedelta(days=k) for k in range(6))))
+        a, st_, _ = ctx.impl(exe, [op], timeout=25, max_restarts=0)
+        if not a or a[0].startswith("<"):
+            fails.append((op[:400], "the rule `%s' used as a filter (echse unroll --filter) on instants at 22:15: %s" % (txt[:60] + "...", (a[0] if a else st_)[:100])))
+    # a rule whose every occurrence is excluded: the filter looks at them one by one (recorded finding, class exrule-all)
+    cal = "BEGIN:VCALENDAR\nBEGIN:VEVENT\nUID:x\nSUMMARY:x\nDTSTART:20200315T100000Z\nRRULE:FREQ=SECONDLY\nEXRULE:FREQ=SECONDLY\nEND:VEVENT\nEND:VCALENDAR\n"
+    xop = "p.occ %s 1" % cal.encode().hex()
+    xa, xst, _ = ctx.impl(exe, [xop], timeout=15, max_restarts=0)
+    if not xa or xa[0].startswith("<timeout") or xst.startswith("timeout"):
+        kn = [k for k in common.load_known("C09") if k.get("status") == "known" and k.get("class") == "exrule-all"]
+        ctx.cov["exrule_all_probe"] = "no answer within 15 s"
+        if kn:
+            ctx.known(kn[0]["what"])
+        else:
+            fails.append((xop, "RRULE:FREQ=SECONDLY with EXRULE:FREQ=SECONDLY (every occurrence excluded): the first next() does not come back within 15 s"))
+    elif xa[0].startswith("<"):
+        fails.append((xop, "RRULE:FREQ=SECONDLY with EXRULE:FREQ=SECONDLY: %s" % xa[0][:200]))
+    else:
+        ctx.cov["exrule_all_probe"] = xa[0][:80]
     # filler calls through the model (fuel never ends a loop: theorems; here: same answers)
     sub = [wf[i] for i in sorted(rng.sample(range(len(wf)), min(len(wf), 150)))]
     fops, fimpl, fmodel = p_rrfill.chains(ctx, exe, sub, rng, nfills=3)
@@ -223,7 +249,7 @@ def run(ctx):
         "exhaustive": False,
     })
     ctx.assumptions += ["`bounded amount of work' is judged as: 200 occurrences of any accepted rule within %.0f s in the sanitizer build" % BUDGET,
-                        "memory safety as far as ASan/UBSan (-fno-sanitize=shift) observe it on the inputs run"]
+                        "memory safety as far as ASan/UBSan (-fno-sanitize=shift-base) observe it on the inputs run"]
     if fails:
         op, why = fails[0]
         ctx.violation("property", why, {"op": op, "failures_total": len(fails), "more": [w[:300] for _, w in fails[1:6]]})
